@@ -145,6 +145,7 @@ type Unit struct {
 	resultVals []Val
 	loopN    int
 	inSpec   int
+	assertArgs []Val
 	callN    map[string]int
 	safeN    map[string]int
 	closures map[types.Object]*ast.FuncLit
